@@ -119,20 +119,41 @@ package lastgersync
 //@   ensures[failure-changes-nothing] result != nil ==> gerHas == old(gerHas)
 
 // ---- the two cursors of the injected-GER index (C16): assumed semantics (A5), texts pinned
+// the restart point of the download (C16 "across restarts"): gerLastBlockRow is the highest block row, -1 for an empty
+// table (assumed at the library call, A5); the function is proved: only an empty table is answered with block 0, a
+// storage failure is reported
+//@ ghost var gerLastBlockRow int
+//@ ghost var gerLastBlockFaults int
+//@ extern github.com/russross/meddler.QueryRow@lastgersync.(*processor).GetLastProcessedBlock (conn, dst, query, args)
+//@   requires typeIs(dst, *BlockNum) && cast(dst, *BlockNum) != nil
+//@   modifies *cast(dst, *BlockNum), gerLastBlockFaults
+//@   ensures gerLastBlockFaults == old(gerLastBlockFaults) + ite(result != nil && !isErr(result, sql.ErrNoRows), 1, 0)
+//@   ensures result == nil ==> gerLastBlockRow >= 0 && cast(dst, *BlockNum).Num == gerLastBlockRow
+//@   ensures (result != nil && isErr(result, sql.ErrNoRows)) ==> gerLastBlockRow == -1
 //@ func (p *processor) GetLastProcessedBlock
 //@   props C16
-//@   trusted
-//@   modifies nothing
+//@   requires p != nil
+//@   modifies gerLastBlockFaults
 //@   sqltext "SELECT num FROM block ORDER BY num DESC LIMIT 1;"
+//@   ensures[the-highest-block-row-or-zero-when-empty] result1 == nil ==> result0 == ite(gerLastBlockRow == -1, 0, gerLastBlockRow) && gerLastBlockRow >= -1
+//@   ensures[a-storage-failure-is-reported] result1 == nil ==> gerLastBlockFaults == old(gerLastBlockFaults)
 // gerStoredLatest: the greatest L1 info tree index among the stored injected roots, -1 when none is stored
 //@ ghost var gerStoredLatest int
+// (the statement's meaning is assumed at the library call, A5; the function is proved: only "no rows" is "not found")
+//@ extern github.com/russross/meddler.QueryRow@lastgersync.(*processor).getLatestL1InfoTreeIndex (conn, dst, query, args)
+//@   requires typeIs(dst, *GlobalExitRootInfo) && cast(dst, *GlobalExitRootInfo) != nil
+//@   modifies *cast(dst, *GlobalExitRootInfo)
+//@   ensures result != errvar("db.ErrNotFound")
+//@   ensures result == nil ==> gerStoredLatest >= 0 && cast(dst, *GlobalExitRootInfo).L1InfoTreeIndex == gerStoredLatest
+//@   ensures (result != nil && isErr(result, sql.ErrNoRows)) ==> gerStoredLatest == -1
+//@   ensures (result != nil && !isErr(result, sql.ErrNoRows)) ==> !isErr(result, errvar("db.ErrNotFound"))
 //@ func (p *processor) getLatestL1InfoTreeIndex
 //@   props C16
-//@   trusted
+//@   requires p != nil
 //@   modifies nothing
-//@   ensures result1 == nil ==> result0 == gerStoredLatest && gerStoredLatest >= 0
-//@   ensures (result1 != nil && isErr(result1, db.ErrNotFound)) ==> gerStoredLatest == -1
-//@   ensures result1 != nil ==> result0 == 0
+//@   ensures[the-greatest-stored-index] result1 == nil ==> result0 == gerStoredLatest && gerStoredLatest >= 0
+//@   ensures[not-found-means-nothing-stored] (result1 != nil && isErr(result1, db.ErrNotFound)) ==> gerStoredLatest == -1
+//@   ensures[zero-with-an-error] result1 != nil ==> result0 == 0
 //@   sqltext "SELECT l1_info_tree_index FROM imported_global_exit_root ORDER BY l1_info_tree_index DESC LIMIT 1;"
 
 // ---- the legacy (FEP) downloader (C16): injected roots are not observed through events but by asking the L2 manager
